@@ -350,10 +350,22 @@ def rule_r6(ctx) -> RuleResult:
     return rr
 
 
+def rule_r7(ctx, sf: SqlFacts) -> RuleResult:
+    """Two workers that both find the bootstrap page missing both call add_page for it.  That is harmless only because add_page
+    is ONE statement, `INSERT ... ON CONFLICT(<primary key>) DO UPDATE`: SQLite serialises the two upserts.  Split into
+    "look, then INSERT or UPDATE" it is a check-then-act pair across processes, and the loser's INSERT fails with
+    IntegrityError out of expand() (seed C20-9B).  Shared with C10.R2 (upsert completeness)."""
+    from ..core.report import shared
+    from . import c10
+
+    return shared(c10.rule_r2(ctx, sf), "C20.R7", "add_page writes with one atomic upsert on the primary key (shared with C10.R2)",
+                  "two workers adding the same page concurrently: the second one's write fails or silently loses", min_instances=6)
+
+
 def run(ctx) -> list:
     cg = CallGraph(ctx.index)
     sf = SqlFacts(ctx.index)
-    results = [rule_r1(ctx, cg, sf), rule_r2(ctx, cg), rule_r3(ctx, cg, sf), rule_r4(ctx, sf), rule_r5(ctx), rule_r6(ctx)]
+    results = [rule_r1(ctx, cg, sf), rule_r2(ctx, cg), rule_r3(ctx, cg, sf), rule_r4(ctx, sf), rule_r5(ctx), rule_r6(ctx), rule_r7(ctx, sf)]
     if ctx.thorough:
         from ..core.cgcheck import crosscheck
 
